@@ -48,7 +48,13 @@ def record():
     from pyimpspec import progress as P
     rec = Recorder()
     C = P.Progress
-    orig = {n: getattr(C, n) for n in ("__enter__", "__exit__", "increment", "set", "set_message")}
+    orig = {n: getattr(C, n) for n in ("__init__", "__enter__", "__exit__", "increment", "set", "set_message")}
+    steps = {}
+
+    def init_wrapper(self, *a, **kw):
+        n = kw.get("N", 1.0)
+        steps[id(self)] = int(n) if float(n) == int(n) else -1
+        return orig["__init__"](self, *a, **kw)
 
     def wrap(name, make_event):
         fn = orig[name]
@@ -66,13 +72,15 @@ def record():
                 ev = make_event(self, a, kw)
                 ev["emits"] = rec._emits
                 ev["err"] = err
-                rec._emits = outer
                 if rec._depth == 0:
                     rec.events.append(ev)
+                elif outer is not None:
+                    outer.extend(rec._emits)      # a call made by __exit__: its notifications belong to the exit event
+                rec._emits = outer
         return wrapper
 
     def ev_enter(self, a, kw):
-        return {"ev": "enter", "oid": rec.oid(self, new=True), "total": int(self.get_total())}
+        return {"ev": "enter", "oid": rec.oid(self, new=True), "total": int(self.get_total()), "n": steps.get(id(self), 1)}
 
     def ev_exit(self, a, kw):
         e = {"ev": "exit", "oid": rec.oid(self), "i": int(self.get())}
@@ -114,6 +122,7 @@ def record():
             rec._emits = outer
             rec.events.append(ev)
 
+    C.__init__ = init_wrapper
     C.__enter__ = wrap("__enter__", ev_enter)
     C.increment = wrap("increment", ev_inc)
     C.set = wrap("set", ev_set)
